@@ -51,6 +51,34 @@ def adversarial_specs():
     return out
 
 
+def multi_multiplier_specs():
+    """Three/two equality rows whose optimal multipliers have nearly equal magnitude."""
+    I, N = "inf", "-inf"
+    H = [[1.0, 0.0, 0.0], [0.0, 1.0, 0.0], [0.0, 0.0, 1.0]]
+    rows3 = [{"a": [1.0, 0.0, 0.0], "b": 0.0, "lb": 0.6, "ub": 0.6}, {"a": [0.0, 1.0, 0.0], "b": 0.0, "lb": -0.6, "ub": -0.6},
+             {"Q": [[0.0, 0.0, 0.0], [0.0, 0.0, 0.0], [0.0, 0.0, 0.2]], "a": [0.0, 0.0, 1.0], "b": 0.0, "lb": 0.63, "ub": 0.63}]
+    out = [raw(3, {"H": H, "g": [0.0, 0.0, 0.0]}, rows3, [N, N, N], [I, I, I], [0.0, 0.0, 0.0], "three_equal_multipliers")]
+    rows2 = [{"a": [1.0, 1.0], "b": 0.0, "lb": 2.0, "ub": 2.0}, {"a": [1.0, -1.0], "b": 0.0, "lb": N, "ub": -1.0}]
+    out.append(raw(2, {"H": [[1.0, 0.0], [0.0, 1.0]], "g": [0.0, 0.0]}, rows2, [N, N], [I, I], [0.0, 0.0], "two_multipliers_eq_ineq"))
+    return out
+
+
+def outside_start_specs():
+    """Starts that violate the variable bounds (allowed input: the solver clips on the first step)."""
+    I, N = "inf", "-inf"
+    out = []
+    # bounded LP-like problem, start far below the box where the objective is already below obj_lower_limit
+    out.append(raw(2, {"g": [1.0, 1.0]}, [], [-5.0, -5.0], [5.0, 5.0], [-1e11, 0.0], "outside_start_below_limit"))
+    out.append(raw(2, {"g": [1.0, -1.0], "H": [[1e-3, 0.0], [0.0, 1e-3]]}, [{"a": [1.0, 1.0], "b": 0.0, "lb": N, "ub": 1.0}],
+                   [-5.0, -5.0], [5.0, 5.0], [-3e10, 1.0], "outside_start_below_limit_cons"))
+    # start outside the box at a stationary point of the violation
+    out.append(raw(2, S.objective("qdiag", 2), [{"Q": [[2.0, 0.0], [0.0, 2.0]], "a": [0.0, 0.0], "b": 1.0, "lb": 0.0, "ub": 0.0}],
+                   [0.5, 0.5], [2.0, 2.0], [0.0, 0.0], "outside_start_stationary_violation"))
+    out.append(raw(2, S.objective("qin", 2), [("skip")] if False else [{"a": [1.0, -1.0], "b": 0.0, "lb": -0.5, "ub": 0.25}],
+                   [-0.5, -0.75], [0.75, 1.25], [3.0, -3.0], "outside_start_plain"))
+    return out
+
+
 DEFAULT = {"newton": "Simplified", "step_solver": "Symmetric", "linear": "LU", "control": "DistanceRatio",
            "penalty": "DualNorm", "active_set": "Standard"}
 AXES = {"newton": R.NEWTONS, "step_solver": R.STEP_SOLVERS, "linear": R.LINEARS, "control": R.CONTROLS,
